@@ -443,6 +443,27 @@ def run_after_use(ctx, desc):
             # keep CMID consistent with the longer CVAL list
             out = [(cid, pl + b"\0\0\0\0\0\0\0\xff" * len(case["surplus"])) if cid == b"CMID" else (cid, pl) for cid, pl in out]
             data = chunktools.build(out)
+        if case["styp"]:
+            # a type name that is not the specified spelling (other case / spacing / the Python class name)
+            chunks = chunktools.parse(data)
+            idx = [i for i, (cid, _) in enumerate(chunks) if cid == b"STYP"]
+            if idx:
+                i = idx[case["styp"][0] % len(idx)]
+                name = chunks[i][1].split(b"\0")[0].decode("utf8", "replace")
+                by = specmodel.by_mtype()
+                variants = [name.upper(), name.lower(), name.replace(" ", ""), name.title(), by[name].cls_name if name in by else name + "x", " " + name]
+                v = variants[case["styp"][1] % len(variants)]
+                chunks[i] = (b"STYP", v.encode("utf8") + b"\0")
+                data = chunktools.build(chunks)
+                import rv.modules as rvm
+
+                for probe in (v, v.strip()):
+                    try:
+                        rvm.MODULE_CLASSES.get(probe)
+                        probe in rvm.MODULE_CLASSES
+                        rvm.MODULE_CLASSES[probe]
+                    except KeyError:
+                        pass
         try:
             o = c05.load(data)
             y = o.read()
@@ -455,7 +476,7 @@ def run_after_use(ctx, desc):
 
     import struct
 
-    strat = st.fixed_dictionaries({"base": c05.mutant_case(), "surplus": st.lists(st.integers(-5, 70000), max_size=3)})
+    strat = st.fixed_dictionaries({"base": c05.mutant_case(), "surplus": st.lists(st.integers(-5, 70000), max_size=3), "styp": st.one_of(st.just(None), st.lists(st.integers(0, 50), min_size=2, max_size=2))})
     run_property(ctx, strat, body2, desc["examples"], tag="after_use_files", bucket="after_use")
 
 
